@@ -701,7 +701,7 @@ CHECKS = [
                "Filter.run / fill_into keep exactly the selected objects. Non-trivial = depth>=2 with a raising leaf."),
     Check("selector_invalid", judge_invalid, strategy=strat_invalid, quick=120, thorough=600,
           rule="invalid specifications raise LenaTypeError."),
-    Check("groupby", judge_groupby, strategy=lambda tier: groupby_case(), quick=2500, thorough=120000,
+    Check("groupby", judge_groupby, strategy=lambda tier: groupby_case(), quick=5000, thorough=120000,
           rule="valid alternating group_by/merge key trees over {a,b,c} depth<=3, 2-8 contexts derived from each other by point mutations "
                "(change/delete/add an atomic entry, scalars where a dictionary is expected); pairwise same-group iff reference signatures equal. "
                "Non-trivial = >=2 listed keys and a decided pair of differing contexts."),
